@@ -219,7 +219,8 @@ class Src:
 
     @staticmethod
     def value_of(name):
-        return "src:" + name
+        # the source "s0" reports the empty text: a value that is falsy but still has to be sent once per spin
+        return "" if name == "s0" else "src:" + name
 
     def __call__(self):
         self.calls += 1
